@@ -89,8 +89,31 @@ fn same_slice(a: &[u8], buf: &[u8], r: &std::ops::Range<usize>) -> bool {
     a.len() == r.len() && (a.is_empty() || a.as_ptr() == buf[r.start..].as_ptr()) && a == &buf[r.clone()]
 }
 
+/// Where the borrowed bytes sit: `Some(k)` copies them to an address congruent to k modulo 8
+/// (untrusted bytes arrive at any alignment: inside a larger record, after a 1-byte header, ...);
+/// `None` uses the caller's slice as it is.
+pub type Placement = Option<usize>;
+
 /// Checks one buffer.  Ok(accepted?) or Err(what is wrong).
 pub fn check_buffer(buf: &[u8], owned: bool) -> Result<bool, String> {
+    check_buffer_at(buf, owned, None)
+}
+
+pub fn check_buffer_at(buf: &[u8], owned: bool, placement: Placement) -> Result<bool, String> {
+    let scratch: Vec<u64>;
+    let buf: &[u8] = match placement {
+        Some(k) if !owned => {
+            let k = k % 8;
+            let mut v: Vec<u64> = vec![0u64; (buf.len() + k) / 8 + 2];
+            // SAFETY: the Vec<u64> owns (len * 8) initialised bytes, 8-aligned; k + buf.len() fits.
+            let bytes: &mut [u8] = unsafe { std::slice::from_raw_parts_mut(v.as_mut_ptr() as *mut u8, v.len() * 8) };
+            bytes[k..k + buf.len()].copy_from_slice(buf);
+            scratch = v;
+            let bytes: &[u8] = unsafe { std::slice::from_raw_parts(scratch.as_ptr() as *const u8, scratch.len() * 8) };
+            &bytes[k..k + buf.len()]
+        }
+        _ => buf,
+    };
     let want = reference_accepts(buf);
     let storage: Cow<[u8]> = if owned {
         Cow::Owned(buf.to_vec())
@@ -220,14 +243,21 @@ pub fn build(words: &[u32], trailer: &[u8]) -> Vec<u8> {
     buf
 }
 
-fn violation(rep: &mut Report, buf: &[u8], owned: bool, err: &str) {
-    if check_buffer(buf, owned).is_ok() {
+fn placement_name(p: Placement) -> String {
+    match p {
+        None => "as-is".into(),
+        Some(k) => format!("{}", k % 8),
+    }
+}
+
+fn violation(rep: &mut Report, buf: &[u8], owned: bool, placement: Placement, err: &str) {
+    if check_buffer_at(buf, owned, placement).is_ok() {
         machinery_failure("C12 violation did not reproduce");
     }
     rep.violation(Violation {
         key: format!("C12:{}", hex(buf).replace(' ', "")),
-        summary: format!("MessageView on [{}]: {}", hex(buf), err),
-        replay_text: format!("check: view\nbuffer: {}\nowned: {}\nobserved: {}\n", hex(buf), owned, err),
+        summary: format!("MessageView on [{}] ({} storage, address = {} mod 8): {}", hex(buf), if owned { "owned" } else { "borrowed" }, placement_name(placement), err),
+        replay_text: format!("check: view\nbuffer: {}\nowned: {}\nplacement: {}\nobserved: {}\n", hex(buf), owned, placement_name(placement), err),
     });
 }
 
@@ -282,9 +312,11 @@ fn rec(rep: &mut Report, alphabet: &[u32], words: &mut Vec<u32>, max_words: usiz
 fn one(rep: &mut Report, words: &[u32], trailer: &[u8]) {
     let buf = build(words, trailer);
     rep.evaluations += 1;
-    // Alternate Cow::Borrowed / Cow::Owned storage deterministically.
+    // Alternate Cow::Borrowed / Cow::Owned storage deterministically; borrowed buffers rotate
+    // through the four placements modulo 4 (plus 4 every other round, i.e. all eight modulo 8).
     let owned = (rep.evaluations & 1) == 0;
-    match check_buffer(&buf, owned) {
+    let placement: Placement = Some(((rep.evaluations >> 1) % 8) as usize);
+    match check_buffer_at(&buf, owned, placement) {
         Ok(accepted) => {
             if accepted {
                 rep.nontrivial += 1;
@@ -299,7 +331,7 @@ fn one(rep: &mut Report, words: &[u32], trailer: &[u8]) {
                 rep.sample(format!("[{}] -> {}", hex(&buf), if accepted { "accepted, accessors agree" } else { "rejected" }));
             }
         }
-        Err(e) => violation(rep, &buf, owned, &e),
+        Err(e) => violation(rep, &buf, owned, placement, &e),
     }
 }
 
@@ -347,27 +379,71 @@ fn long_headers(ctx: &Ctx, rep: &mut Report, unit: &mut usize) {
     rep.note("long headers: N = 2..=40 pairs of 1-byte values, fully sorted, and with a single adjacent descent (or tie) at every position among the tags and among the offsets, and a last offset beyond the payload".to_string());
 }
 
-fn one_buffer(rep: &mut Report, buf: &[u8]) {
-    rep.evaluations += 1;
-    let owned = (rep.evaluations & 1) == 0;
-    match check_buffer(buf, owned) {
-        Ok(accepted) => {
-            if accepted {
-                rep.nontrivial += 1;
-                rep.transitions += 1;
+/// Every buffer of <= max_words words over the small alphabet (no trailer, 3-byte trailer) at every
+/// address modulo 4: alignment-dependent reads of the header are exercised on the full product.
+fn all_placements(ctx: &Ctx, rep: &mut Report, unit: &mut usize, max_words: usize) {
+    fn go(rep: &mut Report, words: &mut Vec<u32>, max_words: usize) {
+        for t in [&[][..], &[0xAAu8, 0xBB, 0xCC][..]] {
+            let buf = build(words, t);
+            for k in 0..4usize {
+                rep.evaluations += 1;
+                rep.count("all_placement_buffers", 1);
+                match check_buffer_at(&buf, false, Some(k)) {
+                    Ok(acc) => {
+                        if acc {
+                            rep.nontrivial += 1;
+                            rep.transitions += 1;
+                        }
+                    }
+                    Err(e) => violation(rep, &buf, false, Some(k), &e),
+                }
             }
-            rep.count("long_header_buffers", 1);
         }
-        Err(e) => violation_long(rep, buf, owned, &e),
+        if words.len() < max_words {
+            for w in WORDS_SMALL {
+                words.push(w);
+                go(rep, words, max_words);
+                words.pop();
+            }
+        }
+    }
+    for a in WORDS_SMALL {
+        for b in WORDS_SMALL {
+            let u = *unit;
+            *unit += 1;
+            if !ctx.owns(u) {
+                continue;
+            }
+            let mut words = vec![a, b];
+            go(rep, &mut words, max_words);
+        }
+    }
+    rep.note(format!("placements: every buffer of 2..={} words over the {}-word alphabet (with and without a 3-byte trailer) borrowed at every address modulo 4; the main enumeration rotates borrowed buffers through all addresses modulo 8", max_words, WORDS_SMALL.len()));
+}
+
+fn one_buffer(rep: &mut Report, buf: &[u8]) {
+    // owned storage, and borrowed storage at every address modulo 4 (and one modulo-8 variant)
+    for (owned, placement) in [(true, None), (false, Some(0usize)), (false, Some(1)), (false, Some(2)), (false, Some(3)), (false, Some(4))] {
+        rep.evaluations += 1;
+        match check_buffer_at(buf, owned, placement) {
+            Ok(accepted) => {
+                if accepted {
+                    rep.nontrivial += 1;
+                    rep.transitions += 1;
+                }
+                rep.count("long_header_buffers", 1);
+            }
+            Err(e) => violation_long(rep, buf, owned, placement, &e),
+        }
     }
 }
 
-fn violation_long(rep: &mut Report, buf: &[u8], owned: bool, err: &str) {
+fn violation_long(rep: &mut Report, buf: &[u8], owned: bool, placement: Placement, err: &str) {
     let full: String = buf.iter().map(|b| format!("{:02X}", b)).collect::<Vec<_>>().join(" ");
     rep.violation(Violation {
-        key: format!("C12:{}", full.replace(' ', "")),
-        summary: format!("MessageView on a {}-byte buffer with N = {}: {}", buf.len(), u32::from_le_bytes(buf[0..4].try_into().unwrap()), err),
-        replay_text: format!("check: view\nbuffer: {}\nowned: {}\nobserved: {}\n", full, owned, err),
+        key: format!("C12:{}:{}", full.replace(' ', ""), placement_name(placement)),
+        summary: format!("MessageView on a {}-byte buffer with N = {} ({} storage, address = {} mod 8): {}", buf.len(), u32::from_le_bytes(buf[0..4].try_into().unwrap()), if owned { "owned" } else { "borrowed" }, placement_name(placement), err),
+        replay_text: format!("check: view\nbuffer: {}\nowned: {}\nplacement: {}\nobserved: {}\n", full, owned, placement_name(placement), err),
     });
 }
 
@@ -379,6 +455,7 @@ pub fn run(ctx: &Ctx) -> Report {
     enumerate(ctx, &mut rep, &WORDS, w, &mut unit);
     let w_small = ctx.tier.pick(8, 9);
     enumerate(ctx, &mut rep, &WORDS_SMALL, w_small, &mut unit);
+    all_placements(ctx, &mut rep, &mut unit, ctx.tier.pick(6, 7));
     rep.max_depth = w_small as u64;
     rep.states = Default::default();
     rep.note(format!(
@@ -393,7 +470,8 @@ pub fn replay(text: &str) -> Result<String, String> {
         machinery_failure("cannot parse buffer");
     };
     let owned = field(text, "owned") == Some("true");
-    match check_buffer(&buf, owned) {
+    let placement: Placement = field(text, "placement").and_then(|p| p.trim().parse::<usize>().ok());
+    match check_buffer_at(&buf, owned, placement) {
         Err(e) => Ok(format!("[{}] {}", hex(&buf), e)),
         Ok(acc) => Err(format!("[{}] {} as the format requires", hex(&buf), if acc { "accepted and consistent" } else { "rejected" })),
     }
